@@ -68,6 +68,9 @@ type L1 struct {
 
 	// T, when set, records every delivered transaction (shared by branches).
 	T *Transcript
+	// Speculate: run every transaction first on a throw-away branch (as CheckTx / simulation does on a real
+	// node) before delivering it; process-local caches that do not roll back with the store become visible.
+	Speculate bool
 }
 
 // PermKeeper is an in-store stand-in for initia's ibcperm keeper.
@@ -257,6 +260,10 @@ func fund(ctx sdk.Context, bk bankkeeper.BaseKeeper, addr sdk.AccAddress, coins 
 
 // Deliver runs one transaction made of msgs with baseapp semantics.
 func (c *L1) Deliver(msgs ...sdk.Msg) Result {
+	if c.Speculate {
+		spec, _ := c.Ctx.CacheContext()
+		_ = deliver(spec, c.Router, 0, msgs...)
+	}
 	r := deliver(c.Ctx, c.Router, 0, msgs...)
 	c.T.AddResult(msgs, r)
 	return r
